@@ -379,6 +379,10 @@ func runC12(c *Ctx) []Violation {
 	if total >= 10 && removals > 0 {
 		c.Nontrivial = true
 	}
+	if !c.Race {
+		// pool behaviour is part of the deterministic execution (plain build only: race builds drop pooled items at random)
+		c.Ev("node-id-counter", idr.VerifNodeIDCounter())
+	}
 	c.Ev("c12", total, removals, len(ids))
 	c.Sample = map[string]interface{}{"kind": "operation history", "owners": nOwners, "operations": total, "removals": removals, "acquisitions": len(ids)}
 	for _, o := range owners {
